@@ -701,6 +701,15 @@ func runC15Child(o *Out, rng *RNG, tier string, replay string) {
 		}
 	}
 
+	// ---------- (ii-r) the pipeline runner holds a task's locks around its whole body
+	nRunner := 60
+	if tier == "thorough" {
+		nRunner = 1500
+	}
+	if !hung {
+		c15RunnerProbe(o, rng.Fork(), nRunner)
+	}
+
 	// ---------- (iii) lock-list parsing of pip:run
 	c15Parse(o, rng, nParse)
 }
